@@ -48,6 +48,8 @@ func TestMain(m *testing.M) {
 
 type env struct {
 	kind string
+	dir  string
+	uses int
 	f    *filer.Filer
 	fs   *weed_server.FilerServer
 	mem  *fkit.MemStore
@@ -57,24 +59,34 @@ var (
 	envMu   sync.Mutex
 	envs    = map[string]*env{}
 	caseSeq int
+	quiet   sync.Once
 )
+
+// envLifetime: a store is replaced by a fresh one after this many cases to bound
+// its growth (opening one is expensive: 8 x 16 MB write buffers for leveldb2).
+const envLifetime = 20000
 
 func getEnv(kind string) *env {
 	envMu.Lock()
 	defer envMu.Unlock()
 	if e := envs[kind]; e != nil {
-		return e
+		if e.uses < envLifetime {
+			e.uses++
+			return e
+		}
+		e.f.Shutdown()
+		os.RemoveAll(e.dir)
+		delete(envs, kind)
 	}
-	if len(envs) == 0 {
-		// (again: vlib.Main switches the seaweedfs log to stderr after TestMain's call)
-		fkit.QuietGlog(vlib.TempDir())
-	}
-	store, err := fkit.NewStore(kind, vlib.TempDir())
+	// (again: vlib.Main switches the seaweedfs log to stderr after TestMain's call)
+	quiet.Do(func() { fkit.QuietGlog(vlib.TempDir()) })
+	dir := vlib.TempDir()
+	store, err := fkit.NewStore(kind, dir)
 	if err != nil {
 		panic(err)
 	}
 	f := fkit.NewFiler(store)
-	e := &env{kind: kind, f: f, fs: fkit.NewServer(f)}
+	e := &env{kind: kind, dir: dir, f: f, fs: fkit.NewServer(f)}
 	e.mem, _ = store.(*fkit.MemStore)
 	envs[kind] = e
 	return e
@@ -984,7 +996,11 @@ func descGate() string {
 	return descGateMsg
 }
 
-func runSequence(t *testing.T, kind string, bucket bool, seq []op, known bool) {
+// cleanup says whether the case root is removed recursively (and checked to be
+// gone) at the end. The enumerator does that for one sequence in eight only: a
+// store that consists mostly of tombstones makes every leveldb iteration scan
+// them, which made the enumeration several times slower.
+func runSequence(t *testing.T, kind string, bucket bool, seq []op, known bool, cleanup bool) {
 	r := newRunner(kind, bucket, t.Fatalf)
 	for i, o := range seq {
 		o.Tok = "t" + strconv.Itoa(i)
@@ -1013,7 +1029,9 @@ func runSequence(t *testing.T, kind string, bucket bool, seq []op, known bool) {
 		}
 		r.step(o)
 	}
-	r.finish()
+	if cleanup {
+		r.finish()
+	}
 	label := "exhaustive-" + kind
 	if bucket {
 		label += "/bucket"
@@ -1042,7 +1060,7 @@ func TestPropNamespaceExhaustive(t *testing.T) {
 		}
 	}
 	plans = append(plans, plan{fkit.LevelDB2, false, maxAll + 1})
-	idx := 0
+	idx, owned := 0, 0
 	for _, pl := range plans {
 		n := 1
 		for i := 0; i < pl.length; i++ {
@@ -1059,7 +1077,8 @@ func TestPropNamespaceExhaustive(t *testing.T) {
 				seq[i] = ops[x%len(ops)]
 				x /= len(ops)
 			}
-			runSequence(t, pl.kind, pl.bucket, seq, known)
+			owned++
+			runSequence(t, pl.kind, pl.bucket, seq, known, owned%8 == 0)
 		}
 	}
 	vlib.Exhaustive(fmt.Sprintf("namespace-sequences(len<=%d on all stores, len=%d on leveldb2; %d ops over %d paths)", maxAll, maxAll+1, len(ops), len(exPaths)), true)
